@@ -610,6 +610,70 @@ def long_lines(r, nfonts, per, sizes):
     return L
 
 
+
+# ---------------------------------------------------------------------------------------------------------
+# structured streams added after the seeded changes C01a / C01b (see DESIGN.md §6)
+
+SWEEP_SCRIPTS = [("Arab", 0x0628), ("Syrc", 0x0710), ("Adlm", 0x0628), ("Mong", 0x0628), ("Deva", 0x0915), ("Mlym", 0x0D15),
+                 ("Khmr", 0x1780), ("Mymr", 0x1000), ("Thai", 0x0E01), ("Hang", 0xAC00), ("Hebr", 0x05D0), ("Tibt", 0x0915),
+                 ("Java", 0x1780), ("Latn", 0x0061), ("-", 0x0061)]
+
+
+def sweep_lines(r, chunk, planes):
+    """every code point of the given planes, in runs of `chunk` consecutive code points (as text and as pre / post context), under
+    every dedicated shaper (script forced): per-code-point table lookups (joining types, categories, syllable classes,
+    decompositions, mirroring …) are total"""
+    own = own_texts()
+    fonts = {}
+    for sc, probe in SWEEP_SCRIPTS:
+        best = None
+        for f, texts in sorted(own.items()):
+            if os.path.getsize(f) > 600_000: continue
+            for idx, t in texts:
+                if any(probe <= c < probe + 0x60 for c in t):
+                    best = (f, idx); break
+            if best: break
+        fonts[sc] = best or (sorted(own)[0], 0)
+    L = []
+    for pl in planes:
+        lo = pl << 16
+        for a in range(lo, lo + 0x10000, chunk):
+            cps = [c for c in range(a, a + chunk) if not (0xD800 <= c <= 0xDFFF)]
+            if not cps: continue
+            ctxt = ",".join(f"{c:x}" for c in cps[:4]) or "-"
+            for sc, _ in SWEEP_SCRIPTS:
+                f, idx = fonts[sc]
+                d = r.choice(["-", "-", "l", "r", "t"])
+                lvl = r.below(3)
+                pre, post = (ctxt, "-") if r.chance(1, 2) else ("-", ctxt)
+                L.append(f"c01 {spec(f, idx)} {d} {sc} - {r.choice([0, 0, 3, 0x10])} {lvl} - {pre} {post} {rle(cps)} ser=1")
+    return L
+
+
+FILL_TABLES = ("hmtx", "vmtx", "hhea", "vhea", "OS/2", "VORG", "post", "kern", "GDEF")
+
+
+def fill_lines(r, nfonts):
+    """table-level mutants: one whole metrics / class table filled with 00 or ff (all advances zero, all classes zero, …) — divisions
+    and subtractions that take such quantities must not trap"""
+    own = own_texts()
+    fonts = [f for f in all_fonts() if os.path.getsize(f) < 400_000]
+    L = []
+    for f in r.sample(fonts, min(nfonts, len(fonts))):
+        data = open(f, "rb").read()
+        recs = [x for x in sfnt_dir(data) if x[0] in FILL_TABLES and 0 < x[3] <= 24_000 and x[2] + x[3] <= len(data)]
+        texts = own.get(f) or [(0, [0x61, 0x62, 0x66, 0x69])]
+        for tag, p, o, l in recs:
+            if tag not in ("hmtx", "vmtx") and not r.chance(1, 3): continue
+            for fill in ("00", "ff"):
+                if tag not in ("hmtx", "vmtx") and r.chance(1, 2): continue
+                skip = 0 if tag in ("hmtx", "vmtx", "VORG") else 4      # keep the version header of the other tables
+                if l <= skip: continue
+                idx, text = r.choice(texts)
+                d = r.choice(["-", "-", "r", "t"])
+                L.append(f"c01 {spec(f, idx, [f'w{o + skip}:' + fill * (l - skip)])} {d} - - 0 {r.below(2)} - - - {rle(text)} ser=1")
+    return L
+
 # ---------------------------------------------------------------------------------------------------------
 # primitives: the len bound as an oracle on the crate, and the correspondence of budget-limited walks
 
@@ -698,6 +762,8 @@ def run(ctx):
     run_both(j, "seeds", seed_lines(), timeout=ctx.budget(900, 1800), nproc=8)
     run_both(j, "config", config_lines(ctx.rng("config"), ctx.budget(2128, 2128 * 4)), timeout=900)
     run_both(j, "mutants", mutant_lines(ctx.rng("mutants"), ctx.budget(120000, 1000000)), timeout=900)
+    run_both(j, "sweep", sweep_lines(ctx.rng("sweep"), ctx.budget(256, 64), ctx.budget([0, 1, 14], [0, 1, 2, 3, 14, 15, 16])), timeout=900)
+    run_both(j, "table-fill", fill_lines(ctx.rng("fill"), ctx.budget(150, 467)), timeout=900)
     run_both(j, "long", long_lines(ctx.rng("long"), ctx.budget(60, 467), ctx.budget(1, 3), ctx.budget([1, 65536], [1, 65536, 300000])),
              timeout=ctx.budget(900, 3000), nproc=8)
     j.report()
